@@ -797,7 +797,12 @@ func run(t *core.Tape, st *core.Stats) *core.Violation {
 	t.Logf("parse %q (after %s) -> String() = %q", raw0, edit, base2.str)
 
 	if v := law(base2); v != nil {
-		v.Input += ":after-schema-edit"
+		// a listed finding keeps its own input class (the edit may have left a type
+		// without fields, which is exactly the open C08 finding)
+		if v.Input != "type-without-fields-printed-as-truncated-parameter" {
+			v.Input += ":after-schema-edit"
+		}
+
 		return v
 	}
 
